@@ -11,6 +11,7 @@ from .. import bfs, core, pers, refmodel as R
 from ..harness import Session, canon_gateway, registry_view
 
 MOD = __name__
+IMPORT_MISSING, IMPORT_BAD, IMPORT_VALID = "/vfs/import-missing.json", "/vfs/import-bad.json", "/vfs/import-valid.json"
 BIGT = "100000000000000000000"
 
 
@@ -48,36 +49,8 @@ def alphabet(version: str, thorough: bool) -> list:
     return evs
 
 
-def roundtrip(nodes: dict, persistence=None, vfs=None) -> list:
-    """save -> load into an empty registry -> compare. Returns [(kind, text)].
-    With `persistence` the save is done by that (long-lived) Persistence object on its own file system."""
-    out = []
-    if persistence is not None:
-        kind, val = pers.run(persistence.save, vfs)
-    else:
-        kind, val, vfs = pers.save_nodes(nodes)
-    if kind != "ok":
-        return [(f"save-failed:{type(val).__name__}", f"save raised {val!r}")]
-    raw = bytes(vfs.files[pers.PATH])
-    kind, val, loaded, _ = pers.load_bytes(raw)
-    if kind != "ok":
-        return [(f"saved-file-rejected:{type(val).__name__}", f"the file written by save is rejected by load: {type(val).__name__}: {str(val)[:200]}")]
-    a, b = registry_view(nodes), registry_view(loaded)
-    if a != b:
-        diffs = []
-        for nid in sorted(set(a) | set(b)):
-            if a.get(nid) != b.get(nid):
-                diffs.append(f"node {nid}: saved {a.get(nid)} loaded {b.get(nid)}")
-        out.append(("roundtrip-differs", "; ".join(diffs)[:400]))
-    else:
-        for nid, n in loaded.items():
-            if type(nid) is not int or any(type(c) is not int for c in n.children) or any(type(t) is not int for c in n.children.values() for t in c.values):
-                out.append(("roundtrip-key-types", f"node {nid}: ids/value types are not ints after load"))
-    # legacy layout must load to the same registry as its native equivalent
-    try:
-        doc = json.loads(raw)
-    except ValueError as exc:
-        return out + [("saved-file-not-json", str(exc))]
+def legacy_of(doc: dict) -> tuple:
+    """(native document without the sleeping key, its equivalent in the legacy pymysensors layout)."""
     native = {}
     legacy = {}
     for k, nd in doc.items():
@@ -98,6 +71,42 @@ def roundtrip(nodes: dict, persistence=None, vfs=None) -> list:
             lc["type"] = cd["child_type"]
             ld["children"][ck] = lc
         legacy[k] = ld
+    return native, legacy
+
+
+def roundtrip(nodes: dict, persistence=None, vfs=None) -> list:
+    """save -> load into an empty registry -> compare. Returns [(kind, text)].
+    With `persistence` the save is done by that (long-lived) Persistence object on its own file system."""
+    out = []
+    if persistence is not None:
+        kind, val = pers.run(persistence.save, vfs)
+    else:
+        kind, val, vfs = pers.save_nodes(nodes)
+    if kind != "ok":
+        return [(f"save-failed:{type(val).__name__}", f"save raised {val!r}")]
+    if pers.PATH not in vfs.files:
+        return [("save-left-no-file", f"save returned normally but there is no file at the configured path; files: {sorted(vfs.files)}")]
+    raw = bytes(vfs.files[pers.PATH])
+    kind, val, loaded, _ = pers.load_bytes(raw)
+    if kind != "ok":
+        return [(f"saved-file-rejected:{type(val).__name__}", f"the file written by save is rejected by load: {type(val).__name__}: {str(val)[:200]}")]
+    a, b = registry_view(nodes), registry_view(loaded)
+    if a != b:
+        diffs = []
+        for nid in sorted(set(a) | set(b)):
+            if a.get(nid) != b.get(nid):
+                diffs.append(f"node {nid}: saved {a.get(nid)} loaded {b.get(nid)}")
+        out.append(("roundtrip-differs", "; ".join(diffs)[:400]))
+    else:
+        for nid, n in loaded.items():
+            if type(nid) is not int or any(type(c) is not int for c in n.children) or any(type(t) is not int for c in n.children.values() for t in c.values):
+                out.append(("roundtrip-key-types", f"node {nid}: ids/value types are not ints after load"))
+    # legacy layout must load to the same registry as its native equivalent
+    try:
+        doc = json.loads(raw)
+    except ValueError as exc:
+        return out + [("saved-file-not-json", str(exc))]
+    native, legacy = legacy_of(doc)
     k1, v1, n1, _ = pers.load_bytes(json.dumps(native).encode())
     k2, v2, n2, _ = pers.load_bytes(json.dumps(legacy).encode())
     if k1 == "ok" and k2 != "ok":
@@ -121,6 +130,12 @@ class Monitor:
         self.explicit = bool(cfg.get("explicit"))
         if self.explicit:
             self._alpha = ["1;255;0;0;17;2.0", "1;3;0;0;6;a", "1;4;0;0;6;b", "1;3;1;0;2;v", "1;4;1;0;2;w", "<save>"]
+            if cfg.get("imports"):
+                # the application also loads other files through the same object (load takes a path): one that
+                # does not exist, one that is not a registry, one that holds a node
+                self._alpha = ["1;255;0;0;17;2.0", "1;3;0;0;6;a", "1;3;1;0;2;v", "<save>", "<import:missing>", "<import:bad>", "<import:valid>"]
+                self.vfs.files[IMPORT_BAD] = bytearray(b'{"1": {"node_id": "x"}}')
+                self.vfs.files[IMPORT_VALID] = bytearray(b'{"9": {"node_id": 9, "node_type": 17, "protocol_version": "2.0", "children": {}, "sketch_name": "", "sketch_version": "", "battery_level": 0, "heartbeat": 0, "sleeping": false}}')
         self.nontrivial = False
         self.last_desc = None
 
@@ -128,6 +143,16 @@ class Monitor:
         return self._alpha
 
     def apply(self, line: str) -> list:
+        if line.startswith("<import:"):
+            which = line[8:-1]
+            path = {"missing": IMPORT_MISSING, "bad": IMPORT_BAD, "valid": IMPORT_VALID}[which]
+            if which == "missing":
+                self.vfs.files.pop(IMPORT_MISSING, None)
+            p = self.s.gateway.persistence
+            kind, val = pers.run(lambda: p.load(path), self.vfs)
+            self.last_desc = {"import": which, "result": [kind, type(val).__name__]}
+            self.nontrivial = False
+            return []
         if self.explicit and line != "<save>":
             # saves happen only when asked for: the file may lag behind the registry for several messages
             out = self.s.line(line)
@@ -171,12 +196,81 @@ class Monitor:
             from ..harness import walk
 
             p = self.s.gateway.persistence
-            return (canon_gateway(self.s.gateway), bytes(self.vfs.files.get(pers.PATH, b"")), walk({k: v for k, v in vars(p).items() if k not in ("nodes", "path", "_cancel_save")}))
+            return (canon_gateway(self.s.gateway), bytes(self.vfs.files.get(pers.PATH, b"")), walk({k: v for k, v in vars(p).items() if k not in ("nodes", "_cancel_save")}))
         return canon_gateway(self.s.gateway)
 
 
 def make(cfg):
     return Monitor(cfg)
+
+
+def overlap_case(job) -> list:
+    """A save is in progress (k of its file operations done) when a message grows the registry and save is
+    called again on the same Persistence object (the scheduled saver and an explicit save overlap). File
+    operations complete in submission order. Once everything has finished the file must load to the registry
+    of the second call."""
+    from aiomysensors.persistence import Persistence
+
+    from .. import fsshim
+    from ..vloop import VLoop
+
+    k, variant, existing = job
+    nodes = {1: Node(1, 17, "2.0", children={3: Child(3, 6, values={2: "a"})})}
+    vfs = fsshim.VFS()
+    p = Persistence(nodes, pers.PATH)
+    if existing:
+        kind, val = pers.run(p.save, vfs)
+        assert kind == "ok", val
+    loop = VLoop()
+    loop.enter()
+    viols = []
+
+    def bad(key, what):
+        viols.append((f"C13|overlap-{key}", f"save called again after {k} file operations of a running save ({variant}, file {'exists' if existing else 'missing'}): {what}"[:900], {"overlap": [k, variant, existing]}))
+
+    try:
+        with fsshim.installed(vfs):
+            t1 = loop.create_task(p.save())
+            loop.run_ready()
+            done = 0
+            while done < k and loop.pending_jobs():
+                loop.run_job(loop.pending_jobs()[0])
+                done += 1
+                loop.run_ready()
+            if done < k:
+                return []
+            if variant == "node":
+                nodes[2] = Node(2, 17, "2.1")
+            elif variant == "child":
+                nodes[1].children[4] = Child(4, 3, description="new")
+            elif variant == "value":
+                nodes[1].children[3].values[3] = "added"
+            else:
+                nodes[1].children[3].values[2] = "a much longer value than before"
+            want = registry_view(nodes)
+            t2 = loop.create_task(p.save())
+            for _ in range(20000):
+                if loop.ready_count():
+                    loop.step()
+                elif loop.pending_jobs():
+                    loop.run_job(loop.pending_jobs()[0])
+                else:
+                    break
+            for name, t in (("first", t1), ("second", t2)):
+                if not t.done():
+                    bad("save-never-finished", f"the {name} save did not finish")
+                elif t.cancelled() or t.exception() is not None:
+                    bad(f"save-raised", f"the {name} save ended with {'cancellation' if t.cancelled() else repr(t.exception())}")
+    finally:
+        loop.shutdown()
+    if viols:
+        return viols
+    kind, val, loaded, _ = pers.load_bytes(bytes(vfs.files.get(pers.PATH, b"")))
+    if kind != "ok":
+        bad("file-unreadable", f"the file is rejected by load: {val!r}")
+    elif registry_view(loaded) != want:
+        bad("file-stale", f"the file loads to {registry_view(loaded)}, the registry at the second save was {want}")
+    return viols
 
 
 # -- directly constructed registries ------------------------------------------------
@@ -228,6 +322,13 @@ def run(ctx: core.Ctx) -> core.Report:
     for k in ("states", "transitions"):
         res[k] += eres[k]
     res["violations"] += eres["violations"]
+    ires = bfs.search(ctx, MOD, [{"version": "2.2", "explicit": True, "imports": True}], max_depth=5 if ctx.quick else 7)
+    for k in ("states", "transitions"):
+        res[k] += ires[k]
+    res["violations"] += ires["violations"]
+    ojobs = [(k, var, ex) for k in range(0, 5) for var in ("node", "child", "value", "longer") for ex in (True, False)]
+    ores = core.pmap(overlap_case, ojobs, ctx.workers)
+    res["violations"] += [core.Violation(k, w, rep) for r in ores for k, w, rep in r]
     g, _ = grid(ctx.quick)
     chunks = [g[i : i + 60] for i in range(0, len(g), 60)]
     gres = core.pmap(job_grid, chunks, ctx.workers, chunksize=1)
@@ -238,14 +339,17 @@ def run(ctx: core.Ctx) -> core.Report:
         "traces_validated_against_impl": res["transitions"] + len(g),
         "exhaustive": False,
         "constructed_registries": len(g),
-        "rule": "every registry reachable in <= depth received messages over an alphabet with boundary payloads is saved by the real Persistence.save (real aiofiles, in-memory fs) and loaded into an empty registry by the real load; plus a full product grid of directly constructed nodes; plus the legacy-layout translation of every saved file",
+        "rule": "every registry reachable in <= depth received messages over an alphabet with boundary payloads is saved by the real Persistence.save (real aiofiles, in-memory fs) and loaded into an empty registry by the real load; plus a full product grid of directly constructed nodes; plus the legacy-layout translation of every saved file; plus histories in which the same object loads other files by path (missing / invalid / valid) between messages and saves; plus a second save call overlapping a running one after 0-4 of its file operations while the registry grows",
         "bounds": {"depth": depth, "per_cfg": res["per_cfg"]},
         "samples": ctx.pick(res["samples"], 2) + [{"grid": list(g[ctx.seed % len(g)])}],
     }
-    return core.Report(level="model_checking", coverage=cov, violations=viols, assumptions=["legacy layout produced by a reference translator (sensor_id/type/id, null sketch fields, no sleeping key)", "depth-bounded reachability"])
+    return core.Report(level="model_checking", coverage=cov, violations=viols, assumptions=["overlapping saves: file operations complete in submission order and the registry only grows in between (two writers whose operations interleave otherwise are outside the statement)", "legacy layout produced by a reference translator (sensor_id/type/id, null sketch fields, no sleeping key)", "depth-bounded reachability"])
 
 
 def replay(data: dict) -> dict:
+    if "overlap" in data:
+        r = overlap_case(tuple(data["overlap"]))
+        return {"violated": bool(r), "violations": [{"key": k, "what": w} for k, w, _ in r]}
     if "grid" in data:
         t, v, nm, b, hb, sl, ci, nid = data["grid"]
         _, childsets = grid(False)
